@@ -16,6 +16,7 @@ import (
 	"os"
 	"path/filepath"
 	"runtime/debug"
+	"runtime/pprof"
 	"sort"
 	"strings"
 	"time"
@@ -128,6 +129,7 @@ type jobResult struct {
 	Outputs     []string               `json:"outputs,omitempty"`
 	GlobalW     []string               `json:"global_writes,omitempty"`
 	GlobalR     []string               `json:"mutable_global_reads,omitempty"`
+	SyncUses    []string               `json:"sync_uses,omitempty"`
 	MapRanges   int                    `json:"map_ranges,omitempty"`
 	Funcs       []string               `json:"functions_encoded,omitempty"`
 	Notes       map[string]string      `json:"notes,omitempty"`
@@ -466,6 +468,7 @@ func runJob(j job) *jobResult {
 	}{}
 	globalWrites = map[string]bool{}
 	globalReads = map[string]bool{}
+	syncUses = map[string]bool{}
 	noMergeAt = map[ssa.Instruction]bool{}
 	mergeCache = map[string]value{}
 	pkgName := j.Pkg
@@ -506,6 +509,10 @@ func runJob(j job) *jobResult {
 		wlStack = []*wl{top}
 		rs = &runState{decisions: it.dec, initDoms: it.doms, occ: map[ssa.Instruction]int{}, ptrace: it.trace}
 		asciiKnown = map[*term]bool{}
+		onceDone = map[*value]bool{}
+		jsonStubs = map[string]*jsonStub{}
+		writtenFiles = nil
+		syncMaps = map[*value]*mapVal{}
 		deferStacks = map[*frame][]deferred{}
 		resetGlobals()
 		z3.send("(push)")
@@ -617,6 +624,10 @@ func runJob(j job) *jobResult {
 	for r := range globalReads {
 		res.GlobalR = append(res.GlobalR, r)
 	}
+	for u := range syncUses {
+		res.SyncUses = append(res.SyncUses, u)
+	}
+	sort.Strings(res.SyncUses)
 	sort.Strings(res.GlobalW)
 	sort.Strings(res.GlobalR)
 	res.Sat, res.Unsat, res.Unknown = z3.nSat-sat0, z3.nUnsat-unsat0, z3.nUnk-unk0
@@ -739,8 +750,15 @@ func main() {
 	flag.BoolVar(&cfg.Verbose, "v", false, "verbose")
 	flag.StringVar(&cfg.Overlays, "overlay", "", "extra source overlays virtual=real,...")
 	flag.StringVar(&cfg.SolverLog, "solverlog", "", "dump solver input")
+	cpuprof := flag.String("cpuprofile", "", "write a CPU profile")
 	listFuncs := flag.Bool("funcs", false, "print the functions reachable from the exported API and exit")
 	flag.Parse()
+	debug.SetGCPercent(800)
+	if *cpuprof != "" {
+		f, _ := os.Create(*cpuprof)
+		pprof.StartCPUProfile(f)
+		defer pprof.StopCPUProfile()
+	}
 	load()
 	if *listFuncs {
 		printReachable()
